@@ -22,6 +22,36 @@ var commonAssumptions = []string{
 }
 
 var props = map[string]propSpec{
+	"C02": {
+		QuickShards: 8, ThoroughShards: 16,
+		Rule: "rapid draws operand pairs for Mul/Quo (independent; both coefficients below 2^64; exact-tie products 5^k*u x 2^(k-1)*v; near-tie products and quotients built with modular inverses so that the exact result is cr + 1/2 -/+ tiny; terminating quotients with divisors 2^a*5^b; extreme-word divisors; zero operands) with exponents steered to the flush/subnormal and overflow windows; every pair is evaluated under 6 modes and 6 DefaultRoundingMode values against the exact product / rational quotient rounded by ref.RoundX with the flush rule. Non-trivial = result not exactly representable, or flushed, or overflowing; distinct = distinct (x bits, y bits, op).",
+		Assumptions: commonAssumptions,
+	},
+	"C03": {
+		QuickShards: 8, ThoroughShards: 16,
+		Rule: "rapid draws (x, y) for QuoRem with exponent gaps -40..60 (every scaling arm), gaps up to 12287 (quotients with thousands of digits), x = k*y + delta units, same value in another cohort +/- 1 unit, 64-bit fast-path operands, zero dividends and the special classes of the statement; 6 modes each; oracle = big.Int QuoRem at the common exponent (remainder exact, quotient exact or RoundX). Non-trivial = non-zero integer quotient; distinct = distinct (x bits, y bits).",
+		Assumptions: commonAssumptions,
+	},
+	"C04": {
+		QuickShards: 8, ThoroughShards: 16,
+		Rule: "rapid draws triples (x, y, z): arbitrary patterns, near-equal values re-encoded in other cohort members +/- one unit at every exponent gap 0..35, zeros/Inf/NaN mixes, equal-length magnitudes; all 9 ordered pairs are checked for Cmp, CmpAbs, Equal, Compare, Min, Max against the exact order, plus IsZero/Sign and transitivity on the triple. Non-trivial = x and y finite, non-zero, same sign and within a factor 10 (scaled coefficients must be compared); distinct = distinct bit triple.",
+		Assumptions: commonAssumptions,
+	},
+	"C08": {
+		QuickShards: 8, ThoroughShards: 16,
+		Rule: "rapid draws (d, dp): dp near d's own digit positions, -7000..7000, threshold windows (+-6111, +-6145, +-6176), int extremes (MinInt, MaxInt, int32 bounds); tie/near-tie constructor at the rounding position incl. carry chains; values at the top of the range. Round under 6 modes (with the below-one-tenth-quantum flush rule), Ceil, Floor, the four package functions, idempotence, distance <= one quantum, specials unchanged; oracle = exact integer quantisation. Non-trivial = at least one non-zero digit is dropped; distinct = distinct (bits, dp).",
+		Assumptions: commonAssumptions,
+	},
+	"C12": {
+		QuickShards: 8, ThoroughShards: 16,
+		Rule: "rapid draws 128-bit patterns (uniform, structured finite, zeros, NaN/Inf with payload/garbage); MarshalBinary bytes are decoded by an independent BID decoder and compared with Decompose and String (routes that do not involve MarshalBinary), re-encoded by an independent encoder, round-tripped bit for bit from both the Decimal side and the byte side; byte slices of length 0..64 for the length rule; hand-computed IEEE vectors pin the independent codec. Non-trivial = coefficient above 2^64, steering form, or special with payload bits / length != 16; distinct = distinct pattern.",
+		Assumptions: commonAssumptions,
+	},
+	"C14": {
+		QuickShards: 8, ThoroughShards: 16,
+		Rule: "rapid draws Decimals with nil/short/reusable buffers for Decompose->Compose round trips, and arbitrary parts (form 0..255, sign, coefficient bytes c*10^z+small up to ~400 bytes with leading zero bytes, int32 exponents incl. extremes and compensation windows); oracle: representable iff the exact value has a format member (RoundX toward zero == away), then Compose must return exactly it, otherwise an error. Non-trivial = coefficient longer than 16 bytes or exponent outside -6176..6111 (parts), coefficient above 2^64 (round trip); distinct = distinct arguments.",
+		Assumptions: commonAssumptions,
+	},
 	"C01": {
 		QuickShards: 8, ThoroughShards: 16,
 		Rule: "rapid draws operand pairs (independent; exponent gap -45..45; tie/near-tie constructor at the 34/35-digit boundary; near-cancellation across cohorts; swallowed operand up to gap 12287; zeros; overflow edge) and add/sub; every pair is evaluated under all 6 modes and under all 6 DefaultRoundingMode values against the exact integer sum rounded by ref.RoundX. Non-trivial = the exact sum is not representable (rounding decides) or the operands cancel exactly; distinct = distinct (x bits, y bits, op).",
